@@ -403,6 +403,56 @@ def work_mixed_ports(chunk, st):
     st.sample({'mixed_notation': [list(chunk[0][0]), list(chunk[0][1])], 'p': chunk[0][2]}, cap=3)
 
 
+# ---- two services at ONE address (one name, two ports), the connection-rate check switched on, two workers: what the rate check of
+# one target finds (it counts connections per second of its own window) is what it finds when that target is audited alone, under
+# every schedule of the workers' connection events (preemption bound 1) - waiting for a lock another worker holds takes (virtual) time
+def work_one_address_rate(chunk, st):
+    import socket as _s
+    from mc import runner, vnet
+    for a, b, threads, bound in chunk:
+        host, ip = 'svc.example', '10.8.9.1'
+
+        def world():
+            return vnet.World(servers={(ip, 22): MT.HEALTHY[a]('p22'), (ip, 2222): MT.HEALTHY[b]('p2222')}, resolver={host: [(int(_s.AF_INET), ip)]})
+        alone = {}
+        for line in (host, host + ':2222'):
+            r = runner.run_cli(['-n', '-j', '-T', MT.targets_file([line]), '--threads', '1'], world())
+            try:
+                alone[line] = json.loads(r.stdout)[0]
+            except (ValueError, IndexError, KeyError):
+                alone[line] = None
+
+        def once(prefix):
+            res, sc = sched.run_scheduled(runner.run_cli, ['-n', '-j', '-T', MT.targets_file([host, host + ':2222']), '--threads', str(threads)], world(), prefix, ('connect',))
+            return (res, sc), sc.points
+        n = 0
+        for prefix, (res, sc), _pts in sched.explore_schedules(once, bound, 60):
+            n += 1
+            root = ('one-address-rate', a, b, threads, tuple(prefix))
+            st.execution(res.world, outcome=('one-address-rate', res.status), root=root, nontrivial=root)
+            st.extra['schedules'] += 1
+            d = {'targets': [host, host + ':2222'], 'archetypes': [a, b], 'threads': threads, 'schedule': list(prefix), 'status': res.status}
+            if res.hang or res.exc:
+                st.violation('one-address-rate:hang-or-escaped-exception', dict(d, hang=res.hang, exc=res.exc))
+                continue
+            try:
+                doc = json.loads(res.stdout)
+            except ValueError:
+                st.violation('one-address-rate:json-not-one-document', dict(d, tail=res.stdout[-200:]))
+                continue
+            for line in (host, host + ':2222'):
+                want = alone[line]
+                got = [e for e in doc if isinstance(e, dict) and want is not None and e.get('target') == want.get('target')]
+                if want is None or len(got) != 1:
+                    st.violation('one-address-rate:entry-missing', dict(d, line=line))
+                elif got[0] != want:
+                    keys = sorted(k for k in set(want) | set(got[0]) if want.get(k) != got[0].get(k))
+                    st.violation('result-differs:one-address-rate:%s' % '+'.join(keys), dict(d, line=line, alone={k: want.get(k) for k in keys}, together={k: got[0].get(k) for k in keys}))
+        if n >= 60:
+            st.caps.append('one-address-rate: schedule cap 60 hit for %s' % [a, b])
+    st.sample({'one_address_rate': [list(x) for x in chunk[:2]]}, cap=3)
+
+
 def run(tier, seed):
     t0 = time.time()
     cs = cases(tier)
@@ -417,6 +467,8 @@ def run(tier, seed):
     seconds = ['CLEAN', 'RSA4096', 'GEX4096', 'MARK', 'RSA1024'] if tier == 'quick' else ARCHS
     par.pmap(work_after_crash, [(a, b, f) for a in firsts for b in seconds if b != 'SSH1' for f in ('text', 'json')], stats=st, chunk=2)
     par.pmap(work_debug, [(a, th) for a in (('TERR', 'CLEAN'), ('CLEAN', 'TERR'), ('RSA1024', 'MARK', 'CLEAN'), ('GEX1024', 'CLEAN')) for th in (1, 2)], stats=st, chunk=1)
+    par.pmap(work_one_address_rate, [(a, b, th, 1 if th == 2 else 0) for a, b in (('TERR', 'TERR'), ('TERR', 'GEX1024'), ('RSA1024', 'CLEAN')) for th in ((1, 2) if tier == 'quick' else (1, 2, 3))],
+             stats=st, chunk=1)
     par.pmap(work_gextest, [(a, b, sp, f) for a in GEXTEST_ARCHS for b in GEXTEST_ARCHS for sp in GEXTEST_SPECS for f in ('text', 'json')], stats=st, chunk=4)
     lines = [('ssh2_kexdb', 2, 2), ('ssh1_kexdb', 2, 2)] if tier == 'quick' else [('ssh2_kexdb', 2, 3), ('ssh1_kexdb', 2, 3), ('ssh2_kexdb', 3, 2), ('ssh1_kexdb', 3, 2)]
     par.pmap(work_lines, lines, stats=st, chunk=1)
